@@ -176,6 +176,52 @@ theorem ssh_echo_session_independent (dt : DevType) (host banner p1 p2 : Str) (d
       allSinks (sshRun (runE p2 (loadProg dt host banner) [] dev)) :=
   ssh_echo_device_independent _ (password_sent_only_at_password_prompt dt host banner) p1 p2 dev hdev
 
+/-! ## the change phase of an SSH session
+
+After login and reading the configuration the back end sends the commands of the change script
+(computed from the device configuration and the Netspoc code) with `console.Conn.Send`; the device's
+echo and answers go to `.change`.  `sessionProg` is the login program followed by these steps. -/
+
+/-- **Change phase**: its steps — hence everything it writes to `.change`, to the run log, to history
+and stdout — are a function of the script, of what the device writes (`dev`: per step the text, whether
+it echoes the line received, leftover blanks) and of nothing else: the password is not an argument, for
+any device, echoing or not.  So the password can stand in `.change` only if the script or the device
+output contains it — which the harness checks per run. -/
+theorem ssh_change_phase_password_free (p1 p2 : Str) (applies : Bool) (script : List Str) (last1 last2 : Str)
+    (dev : EDev) :
+    runE p1 (changeProg applies script) last1 dev = runE p2 (changeProg applies script) last2 dev :=
+  runE_changeProg p1 p2 applies script last1 last2 dev
+
+/-- The change phase never sends the password (state machine property of the whole session). -/
+theorem ssh_session_with_changes_guarded (dt : DevType) (host banner : Str) (applies : Bool) (script : List Str) :
+    Guarded false (sessionProg dt host banner applies script) :=
+  (password_sent_only_at_password_prompt dt host banner).andThen (guarded_changeProg applies script)
+
+/-- **Whole session with changes on an echoing device**: login, configuration and change script; for
+the same script and the same device behaviour (neither depends on the password: hypothesis of the
+run, checked by the harness) all sinks are the same for any two passwords. -/
+theorem ssh_session_with_changes_independent (dt : DevType) (host banner p1 p2 : Str) (applies : Bool)
+    (script : List Str) (dev : EDev) (hdev : noEchoAtPasswordPrompt dev = true) :
+    allSinks (sshRun (runE p1 (sessionProg dt host banner applies script) [] dev)) =
+      allSinks (sshRun (runE p2 (sessionProg dt host banner applies script) [] dev)) :=
+  ssh_echo_device_independent _ (ssh_session_with_changes_guarded dt host banner applies script) p1 p2 dev hdev
+
+/-- The hypothesis "the script does not contain the secret" is necessary: a script that holds the
+password (because the Netspoc code or the device configuration holds it) is echoed into `.change`. -/
+theorem change_script_with_secret_counterexample :
+    ∃ dev : EDev, noEchoAtPasswordPrompt dev = true ∧
+      (sshRun (runE [] (changeProg true ["username x password pw1".toList]) [] dev)).change ≠
+        (sshRun (runE [] (changeProg true ["username x password pw2".toList]) [] dev)).change :=
+  ⟨[([], "\nrouter#".toList, true)], by decide, by decide⟩
+
+/-- Not vacuous: two commands on an echoing device — `.change` holds echo and prompt of each, both
+commands are sent, nothing goes to `.login`. -/
+example :
+    let ops := runE "pw".toList (changeProg true ["no access-list 1".toList, "end".toList]) []
+      [([], "\nrouter(config)#".toList, true), ([' '], "\nrouter#".toList, true)]
+    (sshRun ops).change = ["no access-list 1\n\nrouter(config)#".toList, " end\n\nrouter#".toList] ∧
+      sendsOf ops = ["no access-list 1".toList, "end".toList] ∧ (sshRun ops).login = [] := by decide
+
 /-- The hypothesis is necessary: a device that echoes what is typed at its password prompt puts the
 password into `.login` (outside the guarantee; observed on the real code with such a simulated device). -/
 theorem ssh_echo_at_password_prompt_counterexample :
